@@ -160,7 +160,7 @@ func execBB(c BBCase) (vh.Outcome, error) {
 
 func TestC20Blackbox(t *testing.T) {
 	vh.Run(t, vh.Spec[BBCase]{Property: "C20", Name: "TestC20Blackbox", Journal: true,
-		Rule: "black-box rounds on one real NewServer(remote=true), nothing read from inside the server: 1..4 waiters (direct or through their own client connection) on one code 0..39 (not 35) get 150 ms to register (client waiters optionally after other extended calls on their connection; in a sixth of the cases everybody then stays blocked for 1.2 / 3.5 / 5.5 s without any request, during which nobody may return); a request with another code (not 35) must release none of them; a request with their code must release all of them - a waiter that returns only after the request was repeated (up to 4 times) may have registered late and is not judged, one that never returns is a lost wake-up; 1..3 such rounds on the same server (state left by an earlier round matters). Non-trivial: >= 2 waiters.",
+		Rule: "black-box rounds on one real NewServer(remote=true), nothing read from inside the server: 1..20 waiters (direct or through their own client connection; beyond 4 mostly through client connections, each an outstanding request of the server) on one code 0..39 (not 35) get 150 ms to register (client waiters optionally after other extended calls on their connection; in a sixth of the cases everybody then stays blocked for 1.2 / 3.5 / 5.5 s without any request, during which nobody may return); a request with another code (not 35) must release none of them; a request with their code must release all of them - a waiter that returns only after the request was repeated (up to 4 times) may have registered late and is not judged, one that never returns is a lost wake-up; 1..3 such rounds on the same server (state left by an earlier round matters). Non-trivial: >= 2 waiters.",
 		Gen: func(t *rapid.T) BBCase {
 			c := BBCase{Code: rapid.SampledFrom([]int{0, 11, 13, 18, 19, 31, 32, 39, 1, 17}).Draw(t, "code"), Rounds: rapid.IntRange(1, 3).Draw(t, "rounds")}
 			c.Other = rapid.SampledFrom([]int{11, 19, 1, 32, 200, 13}).Draw(t, "other")
@@ -171,9 +171,14 @@ func TestC20Blackbox(t *testing.T) {
 			if c.Other == c.Code {
 				c.Other = 12
 			}
-			n := rapid.IntRange(1, 4).Draw(t, "n")
+			n := rapid.SampledFrom([]int{1, 2, 2, 3, 3, 4, 4, 7, 8, 9, 12, 20}).Draw(t, "n")
+			kinds := []string{"direct", "direct", "client"}
+			if n > 4 {
+				// many waiters: mostly through client connections (each one an outstanding request of the server)
+				kinds = []string{"client", "client", "client", "direct"}
+			}
 			for i := 0; i < n; i++ {
-				c.Waiters = append(c.Waiters, rapid.SampledFrom([]string{"direct", "direct", "client"}).Draw(t, fmt.Sprintf("w%d", i)))
+				c.Waiters = append(c.Waiters, rapid.SampledFrom(kinds).Draw(t, fmt.Sprintf("w%d", i)))
 			}
 			return c
 		}, Exec: execBB})
